@@ -283,7 +283,7 @@ macro_rules! assert_vfs_is_symlink {
         };
         if $vfs.exists(&target) {
             if !$vfs.is_symlink(&target) {
-                panic_msg!("assert_vfs_is_link!", "exists but is not a symlink", &target);
+                panic_msg!("assert_vfs_is_symlink!", "exists but is not a symlink", &target);
             }
         } else {
             panic_msg!("assert_vfs_is_symlink!", "symlink doesn't exist", &target);
